@@ -22,7 +22,7 @@ RULE = ("exhaustive enumeration of (ballot, assertion) pairs for each candidate 
         "complete table), plus seeded random RAIRE files and RAIRE runs; non-trivial = the ballot ranks at least one of "
         "the assertion's two candidates; distinct = (n, ballot, assertion) / hash of file / hash of profile")
 REQUIRED = ["assort_pairs_compared", "assort_pairs_nontrivial", "exhaustive_tables", "reader_entries_compared",
-            "reader_files", "reapplied_NEB", "reapplied_NEN", "ballots_lacking_contest_compared"]
+            "reader_files", "reapplied_NEB", "reapplied_NEN", "ballots_lacking_contest_compared", "ballots_on_a_reused_record"]
 ASSUMPTIONS = ["rankings are duplicate-free (the property's quantifier)", "candidate ids are strings in both readers",
                "JSON mapping per the RAIRE documentation: WINNER_ONLY <-> NEB, IRV_ELIMINATION + already_eliminated <-> NEN"]
 EXHAUSTIVE = "c14.assort enumerates every partial ranking x ordered pair x eliminated set for each n listed in the counters"
@@ -98,7 +98,8 @@ def run_exhaustive(case, rec):
     rec.count("exhaustive_tables")
     rec.count(f"exhaustive_n:{n}")
     ballots = list(all_partial_rankings(cands)) + [None]
-    for b in ballots:
+    live = CVR(id="x", votes={})   # one long-lived record whose ranking is replaced in place (a corrected / merged record)
+    for bi, b in enumerate(ballots):
         if b is None:
             audit_cvr = CVR(id="x", votes={"other": {"1": 1}})
             gen_cvr = {"other": {"1": 0}}
@@ -110,6 +111,16 @@ def run_exhaustive(case, rec):
             order_mode = len(b) % 3
             keys = list(b) if order_mode == 0 else [c for c in cands if c in ranks] if order_mode == 1 else list(reversed(b))
             audit_cvr = CVR(id="x", votes={cname: {c: ranks[c] for c in keys}})
+            if bi % 3 == 1:
+                live.votes = audit_cvr.votes
+                audit_cvr = live
+                rec.count("ballots_on_a_reused_record")
+            elif bi % 3 == 2:
+                ok, merged = rec.guard("c14.call:merge_cvrs", CVR.merge_cvrs, [live, audit_cvr])
+                if not ok:
+                    return
+                audit_cvr = merged[0]
+                rec.count("ballots_on_a_reused_record")
             gen_cvr = {cname: {c: k for k, c in enumerate(b)}}
         for key, a in asns.items():
             g = gens[key]
